@@ -74,7 +74,7 @@ def main():
         })
     m["checks"] = checks
     m["notes"] = ("15 of 20 properties claimed (run-sim, file-fault simulator, registry / context history machines); "
-                  "known findings and repaired defects in known_findings.json (two recorded findings: C03, C17; 23 fix commits in /repo); "
+                  "known findings and repaired defects in known_findings.json (two recorded findings: C03, C17; 24 fix commits in /repo); "
                   "seeded changes and mutants with the measured results in seeded/ and selftest/sensitivity_results.json; see DESIGN.md.")
     m["engines"] = [{"name": "run-sim", "path": "sim/", "serves_properties": [c["property_id"] for c in checks if c["engine"] != "file-fault simulator"],
                      "kind_free_text": "in-process deterministic simulation of the real behave runner: generated user code delegates to a scripted runtime; simulated clock/TTY; reference-model acceptor; ddmin + replay files"},
